@@ -105,7 +105,9 @@ class Intervals:
         ds = self.r.defs.get(l, [])
         out = None
         if 1 <= l <= self.body.arg_count:
-            out = tr
+            out = self.sum.param(self.body, l) if tr is not None else tr
+            if out is None:
+                out = tr
         if not ds and out is None:
             out = tr
         for proj, kind, pl, bb in ds:
@@ -113,7 +115,7 @@ class Intervals:
                 out = join(out, tr)
                 continue
             if kind == 'rv':
-                v = self.rvalue(pl, stack + (l,), ty)
+                v = self.rvalue(pl, stack + (l,), ty, bb)
             else:
                 v = self.call(pl, stack + (l,), ty)
             if v is None:
@@ -128,14 +130,88 @@ class Intervals:
             self.memo[l] = out
         return out
 
-    def operand(self, op, stack=()):
+    def root(self, l):
+        """follow plain single-definition copies"""
+        seen = set()
+        while l not in seen:
+            seen.add(l)
+            ds = self.r.defs.get(l, [])
+            if len(ds) == 1 and ds[0][1] == 'rv' and not ds[0][0] and ds[0][2]['k'] == 'use' and ds[0][2]['op']['k'] in ('copy', 'move') \
+                    and not ds[0][2]['op']['p']['p'] and not (1 <= l <= self.body.arg_count):
+                l = ds[0][2]['op']['p']['l']
+            else:
+                break
+        return l
+
+    def refine(self, l, rng, bb):
+        """intersect with dominating comparisons `local <op> const` (the P2 guard shape for scalars)"""
+        if rng is None or bb is None:
+            return rng
+        rl = self.root(l)
+        lo, hi = rng
+        body = self.body
+        for a, s in body.cfg.switches_dominating(bb):
+            t = body.blocks[a]['term']
+            d = t['discr']
+            if d['k'] not in ('copy', 'move') or d['p']['p']:
+                continue
+            ds = self.r.defs.get(d['p']['l'], [])
+            if len(ds) != 1 or ds[0][1] != 'rv' or ds[0][2]['k'] != 'bin':
+                continue
+            rv = ds[0][2]
+            op = rv['op']
+            if op not in ('Lt', 'Le', 'Gt', 'Ge', 'Eq', 'Ne'):
+                continue
+            A, B = rv['a'], rv['b']
+
+            def single(o):
+                if o['k'] == 'const':
+                    return o.get('v')
+                if o['k'] in ('copy', 'move') and not o['p']['p'] and self.root(o['p']['l']) != rl:
+                    v = self.local(o['p']['l'], (rl, l))
+                    if v is not None and v[0] == v[1]:
+                        return v[0]
+                return None
+            if A['k'] in ('copy', 'move') and not A['p']['p'] and self.root(A['p']['l']) == rl and single(B) is not None:
+                c = single(B)
+            elif B['k'] in ('copy', 'move') and not B['p']['p'] and self.root(B['p']['l']) == rl and single(A) is not None:
+                c = single(A)
+                op = {'Lt': 'Gt', 'Le': 'Ge', 'Gt': 'Lt', 'Ge': 'Le', 'Eq': 'Eq', 'Ne': 'Ne'}[op]
+            else:
+                continue
+            vals = q.edge_value(body, a, s)
+            truth = q.bool_outcome(body, a, vals)
+            if truth is None:
+                continue
+            if not truth:
+                op = {'Lt': 'Ge', 'Le': 'Gt', 'Gt': 'Le', 'Ge': 'Lt', 'Eq': 'Ne', 'Ne': 'Eq'}[op]
+            if op == 'Lt':
+                hi = min(hi, c - 1)
+            elif op == 'Le':
+                hi = min(hi, c)
+            elif op == 'Gt':
+                lo = max(lo, c + 1)
+            elif op == 'Ge':
+                lo = max(lo, c)
+            elif op == 'Eq':
+                lo, hi = max(lo, c), min(hi, c)
+            elif op == 'Ne':
+                if lo == c:
+                    lo = c + 1
+                if hi == c:
+                    hi = c - 1
+        if lo > hi:
+            return rng
+        return (lo, hi)
+
+    def operand(self, op, stack=(), bb=None):
         if op['k'] == 'const':
             if 'v' in op:
                 return (op['v'], op['v'])
             return ty_range(op['ty'])
         p = op['p']
         if not p['p']:
-            return self.local(p['l'], stack)
+            return self.refine(p['l'], self.local(p['l'], stack), bb)
         # projection: tuple field of a checked op -> handled in rvalue users; else type range
         if len(p['p']) == 1 and p['p'][0]['k'] == 'field':
             base_defs = self.r.defs.get(p['l'], [])
@@ -151,12 +227,12 @@ class Intervals:
                 return (0, 1)
         return ty_range(p['ty'])
 
-    def rvalue(self, rv, stack, ty):
+    def rvalue(self, rv, stack, ty, bb=None):
         k = rv['k']
         if k == 'use':
-            return self.operand(rv['op'], stack)
+            return self.operand(rv['op'], stack, bb)
         if k == 'cast':
-            src = self.operand(rv['op'], stack)
+            src = self.operand(rv['op'], stack, bb)
             to = ty_range(rv['to'])
             if rv['from'] in ('f32', 'f64'):
                 return to      # float->int casts saturate
@@ -164,7 +240,7 @@ class Intervals:
                 return src
             return to
         if k == 'bin':
-            a, b = self.operand(rv['a'], stack), self.operand(rv['b'], stack)
+            a, b = self.operand(rv['a'], stack, bb), self.operand(rv['b'], stack, bb)
             v = arith(rv['op'], a, b)
             tr = ty_range(ty)
             if rv['op'].endswith('WithOverflow'):
@@ -192,7 +268,8 @@ class Intervals:
         if not fn:
             return ty_range(ty)
         name = strip_generics(fn.get('res') or fn['orig']) if fn.get('res_local') else strip_generics(fn['orig'])
-        args = [self.operand(a, stack) for a in t['args']]
+        cbb = self._bb_of(t)
+        args = [self.operand(a, stack, cbb) for a in t['args']]
         if name in LEN_CALLEES:
             return (0, ISIZE_MAX)
         if name in ('std::cmp::Ord::min', 'core::cmp::Ord::min') and len(args) == 2 and all(args):
@@ -223,6 +300,9 @@ class Summaries:
         self.memo = {}
         self.stack = []
         self.iv = {}
+        self.pmemo = {}
+        self.pstack = set()
+        self.asvalue = {}
 
     def ret(self, name):
         if name in self.memo:
@@ -243,6 +323,61 @@ class Summaries:
             self.stack.pop()
         self.memo[name] = v
         return v
+
+    def param(self, body, idx):
+        """range of parameter idx of a crate-internal function = join over its call sites (type range if exported,
+        a closure, or without known callers)"""
+        key = (body.path, idx)
+        if key in self.pmemo:
+            return self.pmemo[key]
+        tr = ty_range(body.locals[idx]['ty'])
+        if tr is None or body.kind != 'fn' or body.exported or key in self.pstack:
+            return tr
+        self.pstack.add(key)
+        try:
+            out = None
+            n = 0
+            for cb in self.fx.bodies:
+                if cb.kind == 'promoted':
+                    continue
+                for c in q.calls(cb):
+                    lb = c.local_body()
+                    if lb is not body:
+                        continue
+                    n += 1
+                    if idx - 1 >= len(c.args):
+                        out = tr
+                        continue
+                    v = self.of(cb).operand(c.args[idx - 1], (), c.bb)
+                    out = join(out, v if v is not None else tr)
+            # a function used as a value (fn item) may be called from anywhere
+            if n == 0 or self._used_as_value(body):
+                out = tr
+        finally:
+            self.pstack.discard(key)
+        if out is None:
+            out = tr
+        self.pmemo[key] = out
+        return out
+
+    def _used_as_value(self, body):
+        if body.path in self.asvalue:
+            return self.asvalue[body.path]
+        used = False
+        for cb in self.fx.bodies:
+            for bi, blk in enumerate(cb.blocks):
+                ops = []
+                for st in blk['stmts']:
+                    if st['k'] == 'assign':
+                        ops += q.rv_operands(st['rv'])
+                t = blk['term']
+                if t and t['k'] == 'call':
+                    ops += t['args']
+                for op in ops:
+                    if op.get('k') == 'const' and op.get('fn') and (op['fn'].get('res') == body.path or op['fn'].get('orig') == body.path):
+                        used = True
+        self.asvalue[body.path] = used
+        return used
 
     def of(self, body):
         k = body.path
